@@ -358,6 +358,8 @@ class BaseClient:
         mode |= parse_rw[s[6:8]]
         if s[2] == "s":
             mode |= 0o4100
+        elif s[2] == "S":
+            mode |= 0o4000
         elif s[2] == "x":
             mode |= 0o0100
         elif s[2] != "-":
@@ -365,12 +367,16 @@ class BaseClient:
 
         if s[5] == "s":
             mode |= 0o2010
+        elif s[5] == "S":
+            mode |= 0o2000
         elif s[5] == "x":
             mode |= 0o0010
         elif s[5] != "-":
             raise ValueError
 
         if s[8] == "t":
+            mode |= 0o1000
+        elif s[8] == "T":
             mode |= 0o1000
         elif s[8] == "x":
             mode |= 0o0001
